@@ -13,6 +13,8 @@ Inductive op :=
 | OUpdBegin (m : nat) (now : Z) | OUpdEnd (m : nat) (o : outcome)
 | OUpdSaved (m : nat) (now : Z)                       (* UpdateTSO stopped right after its (successful) save *)
 | OUpdFinish (m : nat)                                (* ... and continued: setTSOPhysical *)
+| OUpdRead (m : nat) (now : Z)                        (* UpdateTSO stopped right after it read the memory and the clock *)
+| OUpdRest (m : nat) (o : outcome)                    (* ... and continued: decide, save if due, setTSOPhysical *)
 | OSet (m : nat) (ts : Z) (o : outcome)               (* SetTSO *)
 | OSetBegin (m : nat) (ts : Z) | OSetEnd (m : nat) (o : outcome)
 | OGen (m : nat) (count : Z) (retries : nat)          (* GenerateTSO with maxRetryCount = retries *)
@@ -153,6 +155,24 @@ Definition run_op (s : state) (o : op) : state * obs :=
       | (s1, None) => (stepd s1 (LUpdSave m Ok), BStarted)
       end
   | OUpdFinish m => upd_finish s m
+  | OUpdRead m now =>
+      if valid (mems s m) then
+        match step s (LUpdRead m now) with
+        | Some s1 => match upd (mems s1 m) with URead _ => (s1, BStarted) | _ => (s1, BBad) end
+        | None => (s, BBad)
+        end
+      else (s, BBad)
+  | OUpdRest m o =>
+      match upd (mems s m) with
+      | URead _ =>
+          let s2 := stepd s (LUpdDecide m) in
+          match upd (mems s2 m) with
+          | UDecided _ => upd_end s2 m o
+          | UPendSet _ => (stepd s2 (LUpdSet m), BOk)
+          | _ => (s2, BBad)
+          end
+      | _ => (s, BBad)
+      end
   | OSet m ts o =>
       match set_begin s m ts with
       | (s1, Some b) => (s1, b)
@@ -231,7 +251,12 @@ Definition unacked_op (o : op) : bool :=
   | _ => false
   end.
 
-Fixpoint mon_c02 (unacked : bool) (wprev : option Z) (maxP : option Z) (lastmem : option Z) (ops : list op) (obs_l : list obs) : option string :=
+Definition ts_gt (a b : Z * Z) : bool := (fst b <? fst a) || ((fst b =? fst a) && (snd b <? snd a)).
+
+(* top = the largest timestamp answered so far and the member that answered last: the first answer of ANOTHER member (a
+   take-over, also a member that leads again after somebody else) has to lie above everything granted before *)
+Fixpoint mon_c02 (unacked : bool) (wprev : option Z) (maxP : option Z) (lastmem : option Z) (top : option (Z * Z * nat))
+                 (ops : list op) (obs_l : list obs) : option string :=
   match ops, obs_l with
   | ORead :: r, BW w :: br =>
       let dec := match wprev, w with Some a, Some b => b <? a | Some _, None => true | _, _ => false end in
@@ -241,16 +266,26 @@ Fixpoint mon_c02 (unacked : bool) (wprev : option Z) (maxP : option Z) (lastmem 
       else if memab then Some "C02:memory-not-below-stored-window"
       else if dec then Some (if unacked then "C02:stored-window-decreased:after-unacknowledged-applied-save"
                              else "C02:stored-window-decreased")
-      else mon_c02 unacked w maxP None r br
-  | OGen _ _ _ :: r, BTs P _ :: br =>
-      mon_c02 unacked wprev (match maxP with Some q => Some (Z.max q P) | None => Some P end) lastmem r br
-  | OState _ :: r, BMem p _ _ :: br => mon_c02 unacked wprev maxP p r br
-  | o :: r, _ :: br => mon_c02 (unacked || unacked_op o) wprev maxP None r br
+      else mon_c02 unacked w maxP None top r br
+  | OGen m count _ :: r, BTs P L :: br =>
+      let bad := match top with
+                 | Some (tp, tl, tm) => negb (Nat.eqb tm m) && negb (ts_gt (P, L - count + 1) (tp, tl))
+                 | None => false
+                 end in
+      if bad then Some "C02:first-timestamp-after-take-over-not-above-history"
+      else
+        let top' := match top with
+                    | Some (tp, tl, _) => if ts_gt (P, L) (tp, tl) then Some (P, L, m) else Some (tp, tl, m)
+                    | None => Some (P, L, m)
+                    end in
+        mon_c02 unacked wprev (match maxP with Some q => Some (Z.max q P) | None => Some P end) lastmem top' r br
+  | OState _ :: r, BMem p _ _ :: br => mon_c02 unacked wprev maxP p top r br
+  | o :: r, _ :: br => mon_c02 (unacked || unacked_op o) wprev maxP None top r br
   | _, _ => None
   end.
 
 Definition monitor_c01 (c : tcase) : option string := let '(_, _, ops, got) := c in mon_c01 None ops got.
-Definition monitor_c02 (c : tcase) : option string := let '(_, _, ops, got) := c in mon_c02 false None None None ops got.
+Definition monitor_c02 (c : tcase) : option string := let '(_, _, ops, got) := c in mon_c02 false None None None None ops got.
 
 Fixpoint monitor_fails_from (mon : tcase -> option string) (n : nat) (cs : list tcase) : list (nat * string) :=
   match cs with
